@@ -130,6 +130,10 @@ def parse_template(path):
             mm = re.match(r"assumed\s+([A-Za-z0-9_.-]+):?\s*(.*)$", d)
             curfn.assumed = (mm.group(1), mm.group(2))
             curfn.no_canary = True
+        elif w[0] == "spec_include":
+            with open(os.path.join(VERIF, w[1])) as inc:
+                curfn.spec += inc.read().rstrip("\n").split("\n")
+            sink = None
         elif w[0].rstrip(":") == "spec":
             sink = curfn.spec
         elif w[0] == "loop":
@@ -138,7 +142,7 @@ def parse_template(path):
             curfn.loops[k] = {"iter": o.get("iter"), "lines": []}
             sink = curfn.loops[k]["lines"]
         elif w[0] == "closure":
-            k = int(w[1].rstrip(":"))
+            k = -1 if w[1].rstrip(":") == "*" else int(w[1].rstrip(":"))
             o = _kv(d.rstrip(":"))
             curfn.closures[k] = {"params": o.get("params"), "ret": o.get("ret"), "lines": []}
             sink = curfn.closures[k]["lines"]
@@ -177,7 +181,9 @@ def _plan_item(idx, ex):
         if f.ret:
             p["ret"] = f.ret
         p["iters"] = {str(k): v["iter"] for k, v in f.loops.items() if v["iter"]}
-        p["closures"] = {str(k): {"params": v["params"]} for k, v in f.closures.items()}
+        p["closures"] = {str(k): {"params": v["params"]} for k, v in f.closures.items() if k >= 0}
+        if -1 in f.closures:
+            p["closure_default"] = {"params": f.closures[-1]["params"]}
         p["proofs"] = [{"at": q["at"], "id": q["id"]} for q in f.proofs]
         if "loops" in f.expect:
             p["expect_loops"] = f.expect["loops"]
@@ -240,7 +246,11 @@ def _splice_fn(text, f, info, canary):
     for k in f.loops:
         if k >= info["n_loops"]:
             raise Undecided(f"lost anchor: {f.name} loop {k}")
-    for k, cs in f.closures.items():
+    closures = {k: v for k, v in f.closures.items() if k >= 0}
+    if -1 in f.closures:
+        for k in range(info["n_closures"]):
+            closures.setdefault(k, f.closures[-1])
+    for k, cs in closures.items():
         _check_ghost(cs["lines"], where)
         ens = "\n".join("            " + l for l in cs["lines"])
         pat = re.compile(r"->\s*__VX_F%d_CRET_%d__\s*\{" % (j, k))
